@@ -65,6 +65,9 @@ PROGRAMS = [
     (["es"], True, None),
     (["ets"], True, None),
     (["theta", 3], False, None),
+    # a non-identity transformer in front of a stateful one (the detrender must be updated with
+    # the batch as transformed by the preceding steps)
+    (["ttf", [["log"], ["detrend", 1]], ["naive", "last"]], "after-U", None),
 ]
 FHS = [[1], [1, 2], [2, 3]]
 
